@@ -79,6 +79,12 @@ def gen(rng, tier):
             "retry_sleep": rng.choice([0.05, 0.05, 40.0]),
             "bystanders": [rng.choice(["retry", "timeout", "poll", "throttle"]) for _ in range(rng.choice([0, 0, 1, 2, 3]))],
             "drop_bystander": rng.random() < 0.5}
+    if mode == "drop-keep-futures" and kind == "retry" and rng.random() < 0.5:
+        # a future cancelled between two attempts (its job sleeping out a long back-off) is a
+        # finished future like any other: kept by the user, it must not keep the executor alive
+        jobs[0] = {"dur": rng.choice([0.05, 0.1]), "fails": 1, "cancel_at": 0.3}
+        spec["retry_sleep"] = 40.0
+        spec["base"] = "pool"
     spec["sim"] = runner.draw_sim_cfg(rng, est=600)
     if any(j["cancel_at"] == "work-exit" for j in jobs):
         runner.prefer_place(spec["sim"], 0.4)
